@@ -234,7 +234,9 @@ class Run:
             # every verdict is re-established from scratch, twice, without the explorer; the smallest case of the
             # signature is tried first, and further cases (up to 12) when one does not reproduce - e.g. because it was
             # only a consequence of state left behind by an earlier execution in the same worker
-            cands = sorted(vs, key=lambda x: len(json.dumps(jsonable(x['case']))))[:12]
+            # (cases that were evaluated on a fresh import are self-contained: they go first)
+            cands = sorted(vs, key=lambda x: (0 if isinstance(x['case'], dict) and x['case'].get('fresh') else 1,
+                                              len(json.dumps(jsonable(x['case'])))))[:12]
             v = r1 = r2 = None
             failed = []
             for cand in cands:
